@@ -162,6 +162,9 @@ def check_tree(ctx, tr, rng, k, quick):
     pat = rng.choice(['*', '*.d|a*', '!b', 'a|b|ab', '*|!a', ''])
     excl = rng.choice(['', '', 'b', '.h', 'a*'])
     flags = WM.RECURSIVE | (WM.HIDDEN if rng.random() < 0.6 else 0) | (WM.FILEPATHNAME | WM.GLOBSTAR if rng.random() < 0.2 else 0)
+    if not tr.has_dir_cycle() and k % 2 == 0:
+        flags |= WM.SYMLINKS       # symlinked directories are walked too: a second run walks them again
+        ctx.count('symlink_following_trees')
     wit0 = {'tree': tr.spec, 'file_pattern': pat, 'exclude_pattern': excl, 'flags': flags}
     w = fresh(root, pat, excl, flags)
     begin(w)
@@ -565,8 +568,57 @@ def sequences(ctx, tr, maxlen):
                 ctx.mark_nontrivial(seq)
 
 
+def degenerate_roots(ctx):
+    """A root that is no directory (a missing path, with or without a closing separator, a regular file, the empty text): every run still
+    calls on_reset once, yields nothing, counts nothing, and kill / reset behave as on any other object."""
+    if ctx.shard != 2 % max(ctx.nshards, 1):
+        ctx.count('degenerate_root_runs', 0)
+        return
+    with T.Tree([('f', 'f', None), ('d', 'd', None), ('d/g', 'f', None)], 'c15d-') as tr:
+        roots = [os.path.join(tr.root, 'missing'), os.path.join(tr.root, 'missing') + '/', os.path.join(tr.root, 'f'), os.path.join(tr.root, 'f') + '/',
+                 os.path.join(tr.root, 'd', 'nope', 'deeper'), os.fsencode(os.path.join(tr.root, 'missing'))]
+        for r in roots:
+            for flags in (WM.RECURSIVE, 0, WM.RECURSIVE | WM.HIDDEN | WM.SYMLINKS):
+                b = isinstance(r, bytes)
+                with ctx.case(label=('degenerate-root', repr(r), flags)):
+                    w = Rec(r, b'*' if b else '*', b'' if b else '', flags)
+                    begin(w)
+                    runs = []
+                    for call_ in (lambda: w.match(), lambda: list(w.imatch()), lambda: (w.kill(), w.match())[1], lambda: (w.reset(), list(w.imatch()))[1]):
+                        r0 = w.resets
+                        try:
+                            out = call_()
+                        except Exception as e:  # noqa: BLE001
+                            out = f'raised {type(e).__name__}'
+                        runs.append((out, w.resets - r0, w.get_skipped(), w.is_aborted()))
+                    ctx.evals(4)
+                    ctx.count('degenerate_root_runs', 4)
+                    want = [([], 1, 0, False), ([], 1, 0, False), ([], 1, 0, True), ([], 1, 0, False)]
+                    if runs != want:
+                        ctx.disagree('a run over a root that is no directory does not behave like an empty walk (results, one on_reset per run, skipped count, aborted state)',
+                                     {'tree': tr.spec, 'root': repr(r)[-40:], 'flags': flags, 'observed (result, on_reset calls, skipped, aborted)': repr(runs), 'expected': repr(want)})
+        # and the empty text / `.` as root are the working directory
+        cwd = os.getcwd()
+        os.chdir(tr.root)
+        try:
+            for r in ('', '.', './', b'', b'.'):
+                b = isinstance(r, bytes)
+                w = Rec(r, b'*' if b else '*', None, WM.RECURSIVE)
+                begin(w)
+                out = sorted(os.path.normpath(os.fsdecode(v[1])) for v in w.match() if v[0] == 'match')
+                ctx.evals()
+                ctx.count('degenerate_root_runs')
+                if out != ['d/g', 'f'] or w.resets != 1:
+                    ctx.disagree('a run over the working directory spelled as an empty text or `.` misses files or on_reset',
+                                 {'tree': tr.spec, 'root': repr(r), 'matches': out, 'on_reset_calls': w.resets})
+        finally:
+            os.chdir(cwd)
+        ctx.mark_nontrivial(('degenerate-roots',))
+
+
 def run(ctx):
     quick = ctx.quick
+    degenerate_roots(ctx)
     k = 0
     limit = 16 if quick else 10 ** 9
     # (5) call sequences on one small fixed tree (sharded exhaustively)
